@@ -33,8 +33,8 @@ DRIVERS = ["redact"]
 THEOREMS = ["C08_decomposition", "C08_redact_complete", "C08_redact_never_panics", "C08_mask_hides",
             "C08_redact_idempotent", "C08_length", "C08_long_token_refuted", "C08_inadmissible_unchanged",
             "C08_prompts_redacted", "C08_tooluse_refuted", "C08_variants_known",
-            "C08_no_text", "C08_no_text_seq", "C08_inventory_ok", "C08_inventory_safe", "C08_amend_refuted",
-            "C08_notes_mode_masks", "C08_exclude_wins", "C08_notes_needs_opt_in", "C08_agent_kinds",
+            "C08_no_text", "C08_no_text_seq", "C08_inventory_ok", "C08_inventory_safe", "C08_inventory_notes_ok",
+            "C08_unfiltered_writer_refuted", "C08_notes_mode_masks", "C08_exclude_wins", "C08_notes_needs_opt_in", "C08_agent_kinds",
             "C08_nonvacuous", "C08_nonvacuous_msg", "C08_nonvacuous_inventory", "C08_nonvacuous_seq"]
 CLAIM = {
     "text": "Machine-checked proof (Coq 8.16.1) over executable Gallina models. Redaction: for ALL byte texts and "
@@ -45,9 +45,10 @@ CLAIM = {
             "GENERATED from the source tree that applies the storage-mode match or builds its log from existing notes "
             "only, in every mode other than Notes, no prompt record with messages is ever added to the set of blobs "
             "reachable from refs/notes/ai, for all sequences of such writers; the inventory check is a computed "
-            "boolean over the generated table. The full-strength statement is proved false of the faithful model for "
-            "the amend writer (unfiltered, working-log sourced), for ToolUse.input and for runs longer than 90 bytes; "
-            "these are listed known findings.",
+            "boolean over the generated table with NO exception list (the amend writer, formerly unfiltered, now "
+            "applies the storage policy; a writer without a storage-mode match fed from the working log is proved to "
+            "break the invariant). The full-strength statement is proved false of the faithful model for "
+            "ToolUse.input and for runs longer than 90 bytes; these are listed known findings.",
     "design_ref": "DESIGN.md §4 C08",
     "note": "The entropy classifier is a parameter of every theorem (it defines high-entropy). The writer inventory is "
             "syntactic: a writer flagged notes-sourced is trusted to take prompt records only from existing notes "
@@ -72,7 +73,8 @@ ASSUMPTIONS = [
     "a writer that the inventory flags notes-sourced copies prompt records only from existing notes",
 ]
 
-K1 = "C08-K1 commit --amend with a pending inline transcript writes unfiltered prompts"
+# former class C08-K1 (commit --amend with a pending inline transcript wrote unfiltered prompts) is REPAIRED:
+# the amend scenarios are ordinary witnesses now, a failure there is a regression (violation)
 K2 = "C08-K2 ToolUse.input is written unredacted in notes mode"
 K3 = "C08-K3 a secret-character run longer than 90 bytes is never examined"
 
@@ -515,11 +517,12 @@ def run(ctx):
     if ctx.model_ok:
         inv = C.run([drv, "c08-inventory"]).stdout.splitlines()
         ws = [ln.split() for ln in inv if ln.startswith("writer")]
-        unknown_unsafe = [w for w in ws if "safe=0" in w and "known=0" in w]
-        inv_ok = any(ln.strip() == "inventory_ok 1" for ln in inv)
-        obligations.append(("tie:every note writer of the generated inventory is filtered or notes-sourced, "
-                            "except the listed known one", inv_ok and not unknown_unsafe,
-                            "; ".join(" ".join(w[1:3]) for w in unknown_unsafe)))
+        unknown_unsafe = [w for w in ws if "safe=0" in w]
+        inv_ok = any(ln.strip() == "inventory_ok 1" for ln in inv) and \
+            any(ln.strip() == "inventory_notes_ok 1" for ln in inv)
+        obligations.append(("tie:every note writer of the generated inventory is filtered or notes-sourced "
+                            "(no exception) and redacts in notes mode when fed from the working log",
+                            inv_ok and not unknown_unsafe, "; ".join(" ".join(w[1:3]) for w in unknown_unsafe)))
         inventory = [{"file": w[1], "fn": w[2], "prim": int(w[3]), **dict(kv.split("=") for kv in w[4:])} for w in ws]
     else:
         inventory = []
@@ -788,6 +791,7 @@ def run(ctx):
                        for x in res if "error" not in x]
         pred = C.run_cases(drv, "c08-run", model_cases, shards=4) if ctx.model_ok else {}
         engine_bad, seen_text_in_notes_mode, cas_seen = [], 0, 0
+        n_amend_fixed, amend_lost = 0, []
         for x in res:
             if "error" in x:
                 violations.append(("engine error", x))
@@ -805,18 +809,16 @@ def run(ctx):
                 engine_bad.append(f"{x['config']}/{x['path']}/{x['kind']}: {x['problems'][0]}")
             if sum(x["stash_hits"].values()):
                 stash_obs += 1
-            pending_inline_amend = "amend-pending" in x["path"].split("+") and x["kind"] == "inline"
             fails = []          # (text, known class or None)
             if eff != "notes":
                 if words or any(raw.values()):
                     fails.append((f"effective mode {eff}: conversation text in refs/notes/ai (canaries {words}, raw keys "
-                                  f"{[k_ for k_, v in raw.items() if v]})", K1 if pending_inline_amend else None))
+                                  f"{[k_ for k_, v in raw.items() if v]})", None))
             else:
                 if words:
                     seen_text_in_notes_mode += 1
                 if raw["text"]:
-                    fails.append(("notes mode: the flagged key of a user message is in refs/notes/ai unmasked",
-                                  K1 if pending_inline_amend else None))
+                    fails.append(("notes mode: the flagged key of a user message is in refs/notes/ai unmasked", None))
                 if raw["tool"]:
                     fails.append(("notes mode: the flagged key inside ToolUse.input is in refs/notes/ai unmasked", K2))
                 if raw["long"]:
@@ -835,6 +837,10 @@ def run(ctx):
                 got = pred.get(str(x["idx"]), "")
                 if want not in got:
                     sys_mism.append(f"{x['config']}/{x['path']}/{x['kind']}: binary {want} model {got}")
+            if "amend-pending" in x["path"].split("+") and x["kind"] == "inline":
+                n_amend_fixed += 0 if unexplained else 1
+                if eff == "notes" and x["path"] == "amend-pending" and not (words and x["masked_in_head"]):
+                    amend_lost.append(x["config"])
             if x["config"] == "default+custom-api" and x["path"] == "commit":
                 cas_seen += 1 if x["cas_url_in_head"] else 0
             if len(samples) < 7 and (fails or (eff == "notes" and x["path"] == "commit")):
@@ -847,6 +853,9 @@ def run(ctx):
                             "; ".join(engine_bad[:3])))
         obligations.append(("monitor:the scan sees conversation text when it is there (notes-mode scenarios show the canaries)",
                             seen_text_in_notes_mode > 0, f"{seen_text_in_notes_mode} scenarios"))
+        obligations.append(("monitor:fixed witness (former C08-K1) exercised: commit --amend with a pending inline transcript "
+                            "passes the oracle; in notes mode the amended note keeps the conversation with the key masked",
+                            n_amend_fixed > 0 and not amend_lost, f"{n_amend_fixed} scenarios pass; lost: {amend_lost}"))
         obligations.append(("monitor:the redact + CAS-enqueue arm of the default mode was exercised (messages_url in the note)",
                             cas_seen > 0, f"{cas_seen} scenarios"))
         if ctx.model_ok:
@@ -877,7 +886,7 @@ def run(ctx):
                                     "redact_secret_panics_(multibyte_slice)": f"{n_sec_panic}/{len(scases)}",
                                     "prompt_messages": n_msgs, "tool_use_messages": n_tool_msgs},
             "oracle_passes": n_oracle_ok,
-            "oracle_failures_in_known_classes": {"K1/K2/K3 system scenarios": n_sys_known,
+            "oracle_failures_in_known_classes": {"K2/K3 system scenarios": n_sys_known,
                                                  "K2 in-process (flagged token inside ToolUse.input kept)": k2,
                                                  "K3 in-process (run > 90 with flagged prefix kept)": k3},
             "correspondence_mismatches": len(mism) + len(sys_mism),
